@@ -9,6 +9,7 @@ import GraphiqModel.Proofs.SweepCommuteDM
 import GraphiqModel.Proofs.CommuteTableau
 import GraphiqModel.Proofs.HilbertDimHistory
 import GraphiqModel.Proofs.CommuteRefine
+import GraphiqModel.Proofs.CommuteComplete
 import Mathlib.Analysis.Matrix.PosDef
 namespace Graphiq.Commute
 open Graphiq Matrix Classical
@@ -448,5 +449,99 @@ theorem appD_refines_appRaw (ne np : Nat) (a : SOp) (d : Dec) (hd : decode ne np
   simp only [Option.map_some] at e
   rw [e, if_pos hhas, runP_api _ ht hok]
   split <;> rfl
+
+/-! ## along a whole compile sequence -/
+
+/-- every primitive of a decoded operation with pairwise different registers passes the compiler's assertions -/
+theorem decode_primOk (ne np : Nat) (a : SOp) (d : Dec) (hd : decode ne np a = some d) (hnd : a.regs.Nodup) :
+    ∀ o, ∀ p ∈ d.prims o, primOk (ne + np) p = true := by
+  unfold decode at hd
+  split at hd
+  · next g r hitem hregs =>
+    cases hq : regIx ne np r with
+    | none => rw [hq] at hd; cases hd
+    | some q =>
+      rw [hq] at hd
+      simp only [Option.map_some, Option.some.injEq] at hd
+      subst hd
+      have hlt := regIx_lt hq
+      intro o p hp
+      cases g <;> simp only [g1Prims, List.mem_singleton, List.not_mem_nil] at hp <;> subst hp <;>
+        simpa [primOk] using hlt
+  · next _ cr r hitem hregs =>
+    cases hq : regIx ne np r with
+    | none => rw [hq] at hd; cases hd
+    | some q =>
+      rw [hq] at hd
+      simp only [Option.map_some, Option.some.injEq] at hd
+      subst hd
+      have hlt := regIx_lt hq
+      intro o p hp
+      simp only [List.mem_singleton] at hp
+      subst hp
+      simpa [primOk] using hlt
+  · next k _ cr c t hitem hregs =>
+    split at hd
+    · next qc qt hc ht =>
+      have hne : qc ≠ qt := by
+        intro he
+        subst he
+        have := regIx_inj hc ht
+        rw [hregs] at hnd
+        simp only [List.nodup_cons, List.mem_singleton, List.not_mem_nil, not_false_eq_true, List.nodup_nil, and_true] at hnd
+        exact hnd this
+      have hlc := regIx_lt hc
+      have hlt := regIx_lt ht
+      intro o p hp
+      cases k <;> simp only [pairPrims, Option.some.injEq, reduceCtorEq] at hd
+      all_goals subst hd
+      all_goals simp only at hp
+      all_goals cases o
+      all_goals simp only [List.mem_cons, List.mem_singleton, List.not_mem_nil, or_false, if_true, if_false, Bool.false_eq_true] at hp
+      all_goals (rcases hp with rfl | rfl | rfl <;> simp [primOk, hlc, hlt, hne]) <;> done
+    · cases hd
+  · cases hd
+
+/-- **along any compile sequence the density-matrix semantics carries (probability of the recorded outcomes) × (density
+    matrix of the state the stabilizer semantics carries)**: whenever the stabilizer semantics runs through (the recorded
+    outcomes can occur) and ends in the group `g'`, there are a tableau `t'` of that group and a non-zero weight `w` such that
+    the density-matrix run from `c · ρ(t)` ends in `(c · w) · ρ(t')`, with the same unread outcome streams -/
+theorem run_refines_dm (ne np : Nat) : ∀ (l : List SOp), (∀ a ∈ l, (decode ne np a).isSome = true ∧ a.regs.Nodup) →
+    ∀ (t : Tab) (sc : Script) (c : ℂ), TInv (ne + np) t → ∀ (g' : TabSpec.GState) (sc' : Script),
+      runSeq (appRaw ne np) l (some (TabSpec.gstate t, sc)) = some (g', sc') →
+      ∃ (t' : Tab) (w : ℂ), w ≠ 0 ∧ TInv (ne + np) t' ∧ g' = TabSpec.gstate t' ∧
+        runSeq (appD ne np) l (some (c • Hilbert.tabRho (ne + np) t, sc)) = some ((c * w) • Hilbert.tabRho (ne + np) t', sc') := by
+  intro l
+  induction l with
+  | nil =>
+    intro _ t sc c ht g' sc' h
+    have h' : some (TabSpec.gstate t, sc) = some (g', sc') := h
+    injection h' with h'
+    injection h' with h1 h2
+    exact ⟨t, 1, one_ne_zero, ht, h1.symm, by rw [mul_one, ← h2]; rfl⟩
+  | cons a l ih =>
+    intro hl t sc c ht g' sc' h
+    obtain ⟨hsome, hnd⟩ := hl a (by simp)
+    obtain ⟨d, hd⟩ := Option.isSome_iff_exists.1 hsome
+    have hrun : runSeq (appRaw ne np) (a :: l) (some (TabSpec.gstate t, sc))
+        = runSeq (appRaw ne np) l (appRaw ne np a (some (TabSpec.gstate t, sc))) := rfl
+    rw [hrun] at h
+    by_cases hhas : d.has sc
+    · obtain ⟨e1, e2, ht1⟩ := appD_refines_appRaw ne np a d hd t ht sc hhas
+        (fun p hp => decode_primOk ne np a d hd hnd _ p hp) c
+      rw [e1] at h
+      by_cases hw : weightPs (d.prims (d.out sc)) t = 0
+      · rw [if_pos hw, runSeq_appRaw_none] at h; cases h
+      · rw [if_neg hw] at h
+        obtain ⟨t', w', hw', ht', hg', hD⟩ := ih (fun b hb => hl b (List.mem_cons_of_mem _ hb)) _ (d.pop sc)
+          (c * weightPs (d.prims (d.out sc)) t) ht1 g' sc' h
+        refine ⟨t', weightPs (d.prims (d.out sc)) t * w', mul_ne_zero hw hw', ht', hg', ?_⟩
+        show runSeq (appD ne np) l (appD ne np a (some (c • Hilbert.tabRho (ne + np) t, sc))) = _
+        rw [e2, hD, mul_assoc]
+    · exfalso
+      have e := appRaw_map ne np a d hd (some (TabSpec.gstate t)) sc
+      simp only [Option.map_some] at e
+      rw [e, if_neg hhas, runSeq_appRaw_none] at h
+      cases h
 
 end Graphiq.Commute
